@@ -24,7 +24,7 @@ type Case struct {
 func genCase(t *rapid.T) Case {
 	var c Case
 	nofan := rapid.IntRange(0, 2).Draw(t, "nofanout") == 0
-	c.Spec = gen.HandshakeMachine(t, gen.HSOptions{MaxProcs: 4, MaxPad: 3, NoFanout: nofan, EqualLoops: rapid.Bool().Draw(t, "equalloops"), Replicate: true})
+	c.Spec = gen.HandshakeMachine(t, gen.HSOptions{MaxProcs: 4, MaxPad: 3, NoFanout: nofan, EqualLoops: rapid.Bool().Draw(t, "equalloops"), Replicate: true, RichALU: rapid.Bool().Draw(t, "richalu")})
 	for i := 0; i < c.Spec.Inputs; i++ {
 		n := rapid.IntRange(0, 20).Draw(t, "nin")
 		var st []uint64
